@@ -325,20 +325,28 @@ func (c *Client) getCachedConfig(cacheDir string) (*Config, error) {
 		return nil, fmt.Errorf("no cached versions available")
 	}
 
-	// Get the latest file (files are sorted in descending order by timestamp)
-	latestFile := files[0]
+	// Use the newest file that can be read and parsed (files are sorted in
+	// descending order by timestamp). The cache files are not written
+	// atomically: a process that stops while saving a new version leaves the
+	// newest file truncated, and the older versions are kept for exactly this.
+	var lastErr error
+	for _, file := range files {
+		data, err := os.ReadFile(file)
+		if err != nil {
+			lastErr = fmt.Errorf("failed to read cached config: %w", err)
+			continue
+		}
 
-	data, err := os.ReadFile(latestFile)
-	if err != nil {
-		return nil, fmt.Errorf("failed to read cached config: %w", err)
+		var config Config
+		if err := json.Unmarshal(data, &config); err != nil {
+			lastErr = fmt.Errorf("failed to parse cached config: %w", err)
+			continue
+		}
+
+		return &config, nil
 	}
 
-	var config Config
-	if err := json.Unmarshal(data, &config); err != nil {
-		return nil, fmt.Errorf("failed to parse cached config: %w", err)
-	}
-
-	return &config, nil
+	return nil, lastErr
 }
 
 // getCached returns the latest cached config with metadata
